@@ -107,6 +107,22 @@ static void kernels(const c09::Sys &s) {
                 else if (!(b == ref)) { vf::fail("threads.bitwise.ilu0_solve", key, vf::KS() << "nt=" << nt << " policy=" << pol << " differs within the " << (cls ? "parallel" : "serial") << " class"); break; }
                 else vf::S().traces_validated += 1;
             }
+            // the parallel class called from inside an active region: the serial solve's answer up to summation-order rounding
+            if (cls == 1 && have) {
+                set_threads(1, 0);
+                std::vector<double> sref;
+                { relaxation::ilu0<B> ilu(*Ap, relaxation::ilu0<B>::params(), B::params()); backend::numa_vector<double> u(z), t(s.n), xx(x); ilu.apply_pre(*Ap, xx, u, t); sref.assign(u.data(), u.data() + s.n); }
+                for (int nt : NTS_INSIDE) {
+                    set_threads(nt, 0);
+                    Blob got = run_inside_region([&]{ relaxation::ilu0<B> ilu(*Ap, relaxation::ilu0<B>::params(), B::params()); backend::numa_vector<double> u(z), t(s.n), xx(x); ilu.apply_pre(*Ap, xx, u, t); Blob b; serd(b, u); return b; });
+                    vf::count("runs_inside_region");
+                    double worst = 0, scale = 0;
+                    bool shape = got.exc.empty() && got.vals.size() == sref.size();
+                    if (shape) for (size_t i = 0; i < sref.size(); ++i) { worst = std::max(worst, std::abs(got.vals[i] - sref[i])); scale = std::max(scale, std::abs(sref[i])); }
+                    if (!shape || !(worst <= 1e-9 * std::max(scale, 1.0))) { vf::fail("threads.inside_region.ilu0_solve", key, vf::KS() << "max_threads=" << nt << ", called by a member of an outer parallel region: " << (shape ? std::string(vf::KS() << "max |u - u_serial| = " << worst << " (scale " << scale << ")") : got.exc)); break; }
+                    else vf::S().traces_validated += 1;
+                }
+            }
             set_threads(1, 0);
         }
     }
